@@ -340,6 +340,8 @@ pub fn run(args: &Args) -> i32 {
     if args.shard.is_some() {
         let st = if args.only.as_deref() == Some(SUB_H2) {
             super::h2flow::child(args, "C01", SUB_H2, args.cases(500, 10_000), false)
+        } else if args.only.as_deref() == Some(super::c01_h2c::SUB) {
+            super::c01_h2c::child(args, args.cases(1_000, 15_000))
         } else {
             child(args, args.cases(1_000, 20_000))
         };
@@ -350,7 +352,7 @@ pub fn run(args: &Args) -> i32 {
         SUB,
         "one client connection through a live worker's HTTP listener to an HTTP/1.1 mock backend: 1..4 keep-alive POST requests, request and response bodies of boundary-biased sizes (0,1,2; within 9 of 16393 / 16384 / 32768 / 65535 / 65536 / 4096 / 9; up to 256 KiB, thorough 6 MiB) of keyed content, framed with Content-Length, chunked (generated chunk sizes) or - last response - close-delimited; four generated I/O scripts (dribbles, splits, pauses, read stalls, small socket buffers). Oracle: every body byte-identical on the other side, every message ends cleanly, each request reaches the backend exactly once with its method and target. A failure is re-run on a fresh worker and only reported when it reproduces. Non-trivial: a non-empty body and (a size within 9 of a boundary, or a read stall, or scripted writes).",
     );
-    ev.assume("pairs exercised: h1->h1, h2->h1, h2->h2c; the h1->h2c pair and trailers are not exercised yet");
+    ev.assume("pairs exercised: h1->h1, h2->h1, h2->h2c, h1->h2c; trailers only on the h1->h2c pair (as framing hazard; their fidelity is C13's subject)");
     ev.assume("kernel segmentation and epoll wake-up order are influenced (write sizes, NODELAY, pauses, buffer sizes), not dictated");
     ev.rule(
         SUB_H2,
@@ -358,5 +360,7 @@ pub fn run(args: &Args) -> i32 {
     );
     engine::shard::run_sharded(&mut ev, args, SUB, 16, Duration::from_secs(args.tier.pick(900, 5400)));
     engine::shard::run_sharded(&mut ev, args, SUB_H2, 16, Duration::from_secs(args.tier.pick(900, 5400)));
+    super::c01_h2c::describe(&mut ev, args);
+    engine::shard::run_sharded(&mut ev, args, super::c01_h2c::SUB, 16, Duration::from_secs(args.tier.pick(900, 5400)));
     ev.finish()
 }
